@@ -32,7 +32,8 @@ from prompt_toolkit.utils import get_cwidth
 
 ID = "C11"
 DRIVER = "drv_c11"
-PROPS = ["Ptk.Props.C11"]
+PROPS = ["Ptk.Props.C11Scroll", "Ptk.Props.C11Copy", "Ptk.Props.C11Lines", "Ptk.Props.C11Window",
+         "Ptk.Props.C11Rows", "Ptk.Props.C11Procs", "Ptk.Props.C11Doc", "Ptk.Props.C11"]
 LEVEL_TEXT = ("Lean 4 theorems over an executable model of rendering a focused text window (processors' position "
               "maps, BufferControl content with the trailing blank, get_height_for_line, both scroll algorithms, "
               "Window._copy_body with wrapping / prefixes / horizontal scroll): after every render, for every "
